@@ -32,12 +32,14 @@ fn models(tier: Tier) -> Vec<Model> {
             v.extend(gen::m1(0).into_iter().step_by(23));
             v.extend(gen::m3(0).into_iter().step_by(101));
             v.extend(gen::m4(0).into_iter().step_by(29));
+            v.extend(gen::m5(0).into_iter().step_by(29));
         }
         Tier::Thorough => {
             v.extend(gen::m1(1).into_iter().step_by(19));
             v.extend(gen::m2(1).into_iter().step_by(2503));
             v.extend(gen::m3(1).into_iter().step_by(37));
             v.extend(gen::m4(1).into_iter().step_by(11));
+            v.extend(gen::m5(1).into_iter().step_by(11));
         }
     }
     v
